@@ -184,6 +184,7 @@ class Renderer:
         table = {
             "if": [f"{t} = None", "if pipehelp.true():", f"    {t} = {e}"],
             "else": [f"{t} = None", "if pipehelp.false():", "    pass", "else:", f"    {t} = {e}"],
+            "if_false": [f"{t} = None", "if pipehelp.false():", f"    {t} = {e}"],   # written, analysed, never executed
             "for": [f"{t} = None", "for _k in range(1):", f"    {t} = {e}"],
             "while": [f"{t} = None", f"while {t} is None:", f"    {t} = {e}"],
             "with": [f"with pipehelp.ctx():", f"    {t} = {e}"],
